@@ -215,6 +215,7 @@ func Run(r *vk.Run) {
 	r.Assume("the real queue prints a failed durable delete with fmt.Printf; around a GetNextBatch that is cut by a crash the process-wide stdout is pointed at /dev/null (all reporting of this check is serialised with that)")
 	r.Assume("concurrent histories are time-stamped by one atomic counter taken before the call and after the return")
 	r.Assume("a rejected submission 'leaves no trace' is judged by behaviour: a sequencer restarted on the database after the call hands out what one restarted on the database before the call hands out; the queue bound is judged at the interface (accepted-and-not-handed-out count of the model); database keys and bytes are evidence only")
+	r.Assume("a long history is generated while it is executed (the generator keeps >= 1 batch pending in every possible state of the model at each restart): it is a function of the seed and of the answers of the queue; the executed history is an ordinary history and is what the witness holds")
 	r.Assume("datastore writes that fail while the process survives are outside the quantifier (it names crashes): observed (write_fault_observations), not judged")
 	rp := &reporter{r: r, seen: map[string]int{}, max: map[string]int64{}}
 
